@@ -50,7 +50,8 @@ var meNames = []string{"default", "read", "write", ""}
 
 const noName = "\x00no-name"
 
-var epNames = []string{"e0:443", "e1:443", "e2:443", "e3:443", "e4:443"}
+// (one endpoint name is the comma-join of two others: names are opaque strings)
+var epNames = []string{"e0:443", "e1:443", "e0:443,e1:443", "e3:443", "e4:443"}
 
 type MESpec struct {
 	Name int   `json:"name"`
